@@ -83,7 +83,7 @@ fn seqs_upto(al: &[i32], l: usize) -> Vec<Vec<i32>> {
 
 pub fn run() {
 	let cx = ctx();
-	cx.note("rule", json!("ALL frame-id sequences of length 0..L over an alphabet of K ids >= -123: contiguous {-123,-122,..} gapped {-123,-100,0,5,1000,5000}, and far-apart {-123, 65413, 65414, 200000} (length <= 5); quick K=4, L<=8 (87,381 sequences per alphabet); thorough K=6, L<=9 (12,093,235 per alphabet); both modes; Frame built directly from public fields; plus call histories: ALL ordered pairs (A, B) of sequences of length <= 3 (thorough 4) over {-123,-122,-121,1000}, A then B on a fresh thread, both masks checked. Oracle (naive definition): marked(i) iff an earlier (keep-first) / later (keep-last) row has the same id; mask length == rows; exactly one unmarked row per distinct id. Non-trivial = the sequence has a repeated id; distinct by construction"));
+	cx.note("rule", json!("ALL frame-id sequences of length 0..L over an alphabet of K ids >= -123: contiguous {-123,-122,..} gapped {-123,-100,0,5,1000,5000}, and far-apart {-123, 65413, 65414, 200000} (length <= 5); quick K=4, L<=8 (87,381 sequences per alphabet); thorough K=6, L<=9 (12,093,235 per alphabet); both modes; Frame built directly from public fields; plus one id repeated 255 .. 65,537 times (alone and between other ids); plus call histories: ALL ordered pairs (A, B) of sequences of length <= 3 (thorough 4) over {-123,-122,-121,1000}, A then B on a fresh thread, both masks checked. Oracle (naive definition): marked(i) iff an earlier (keep-first) / later (keep-last) row has the same id; mask length == rows; exactly one unmarked row per distinct id. Non-trivial = the sequence has a repeated id; distinct by construction"));
 	cx.note("exhaustive", json!(true));
 	cx.note("assumptions", json!(["ids >= -123 as the property states; sequences longer than L and alphabets larger than K are not enumerated"]));
 	let (k, l) = if cx.quick() { (4usize, 8usize) } else { (6, 9) };
@@ -170,6 +170,25 @@ pub fn run() {
 			eval_case("rollbacks", o_rollbacks, &empty, &p, || format!("ids {:?} then ids {:?}", a, b), local);
 		}
 	});
+	// one id many times over (counters of 8 and 16 bits wrap at 256 and 65,536), alone and between other ids
+	{
+		let mut longs: Vec<Vec<i32>> = vec![];
+		for n in [255usize, 256, 257, 258, 511, 512, 513, 1025, 65_535, 65_536, 65_537] {
+			longs.push(vec![-100; n]);
+			let mut v = vec![-123];
+			v.extend(std::iter::repeat(-122).take(n));
+			v.push(-123);
+			v.push(-121);
+			longs.push(v);
+		}
+		par_each(longs.into_iter(), |ids, local| {
+			let s: Vec<String> = ids.iter().map(|i| i.to_string()).collect();
+			let p = P { class: "long-repeat", s: Some(Arc::from(s.join(",").as_str())), ..Default::default() };
+			let empty = Arc::new(vec![]);
+			let (n, first) = (ids.len(), ids[0]);
+			eval_case("rollbacks", o_rollbacks, &empty, &p, || format!("{} ids starting with {}, one id repeated", n, first), local);
+		});
+	}
 	cx.sample(json!({"ids": [-123, -122, -122, -121, -122], "keep_first": [false, false, true, false, true], "keep_last": [false, true, true, false, false]}));
 	cx.sample(json!({"ids": [1000, -123, 1000], "keep_first": [false, false, true]}));
 	finish(cx);
